@@ -52,6 +52,17 @@ CHECKS = {
         assumptions=["request stream delivered before the response stream (interleavings are C04's dimension); hand-over protocol followed",
                      "generator domain restrictions: see harness/httpgen.hpp header comment"],
     ),
+    "C04": dict(
+        bins=["c04"], replay_bin="c04", campaigns=lambda tier, seed: [dict(name="c04", bin="c04", shards=16, timeout=3000)], level="exploration",
+        rule=("rapidcheck histories: N in 1..8 (thorough 1..12) tagged request/response pairs (tag in the URI and in a response header), mixed framings, Expect/100-continue "
+              "with interim responses, random chunk plans (random cuts / fixed steps / sparse Bernoulli cuts) and a generated legal interleaving in four styles (responses as "
+              "early as legal, requests first, random, strict alternation), DATA_OTHER hand-over followed, transaction destruction and htp_connp_tx_freed between calls, "
+              "auto-destroy on/off, 10 personalities. Oracle: N TRANSACTION_COMPLETE events in arrival order, tags match, pipelining flag vs the harness's own offer-order "
+              "bookkeeping. Non-trivial = N >= 3 with a point where >= 2 requests are outstanding; distinct by (streams, step list)"),
+        assumptions=["'started' is ambiguous below line granularity: the flag must be set when a whole first request line precedes the previous response, must not be set when "
+                     "every request's first byte follows it; in between either value is accepted",
+                     "close-delimited responses are re-framed with Content-Length (their completion needs the close)"],
+    ),
     "C05": dict(
         bins=["fuzz_stream", "sreplay"], replay_bin="sreplay", replay_args=["--monitor", "C05"], campaigns=_fuzz("C05", ""), level="exploration",
         prepare="seeds",
@@ -62,9 +73,13 @@ CHECKS = {
         assumptions=STREAM_ASSUME + ["the caller follows the DATA_OTHER hand-over protocol and offers no data after closing a direction"],
     ),
     "C06": dict(
-        bins=["fuzz_stream", "sreplay"], replay_bin="sreplay", replay_args=["--monitor", "C06"], campaigns=_fuzz("C06", ""), level="exploration",
+        bins=["fuzz_stream", "sreplay", "c06x"], replay_bin="sreplay", replay_args=["--monitor", "C06"], replay_route=[("c06 ", "c06x", [])],
+        campaigns=lambda tier, seed: [dict(name="c06x", bin="c06x", shards=16, timeout=3000)] + _fuzz("C06", "")(tier, seed), level="exploration",
         prepare="seeds",
-        rule=("accounting part, every input: at *_complete and at teardown entity_len == bytes handed to body callbacks, message_len >= entity_len "
+        rule=("exactness part: rapidcheck well-formed exchanges without content coding (bodies with CR/LF/NUL/dashes and HTTP look-alikes, CL / chunked with sizes, "
+              "leading zeros, hex case, extensions, trailers / close-delimited) x 10 personalities x {whole, every single cut of each stream, one byte per call, 6 random "
+              "multi-cuts}: delivered body bytes == AST body, next message intact, entity_len, message_len (chunked: encoding without the trailer section), end-of-body "
+              "marker; non-trivial = (exchange with a hostile body, cut) pairs. accounting part, every input: at *_complete and at teardown entity_len == bytes handed to body callbacks, message_len >= entity_len "
               "without decompression, end-of-body marker before completion for messages with a body; non-trivial = history with >=2 data calls "
               "in which a headers callback fired"),
         assumptions=STREAM_ASSUME + ["the caller follows the DATA_OTHER hand-over protocol and offers no data after closing a direction"],
